@@ -7,6 +7,7 @@ Require Import Cirbo.Model.Base Cirbo.Model.Gate Cirbo.Model.Circuit Cirbo.Model
 Require Import Cirbo.Model.BitIO Cirbo.Model.DictIO Cirbo.Model.Codec Cirbo.Model.CodecCheck Cirbo.Model.Db Cirbo.Model.DbCheck.
 Require Import Cirbo.Proofs.EvalFacts Cirbo.Proofs.IsoFacts Cirbo.Proofs.CodecFacts Cirbo.Proofs.CodecCheckFacts.
 Require Import Cirbo.Proofs.DbCheckFacts Cirbo.Proofs.DbTruthTableFacts Cirbo.Proofs.NormFacts Cirbo.Proofs.DbFacts.
+Require Import Cirbo.Generated.CodecAlgGen Cirbo.Generated.NormAlgGen Cirbo.Proofs.NormAlgGen Cirbo.Proofs.NormAlgGenSum.
 Require Import Cirbo.Proofs.ModelLookupFacts Cirbo.Proofs.CompletionFacts Cirbo.Proofs.LabelFacts Cirbo.Proofs.DecodeFacts Cirbo.Proofs.SweptDb Cirbo.Proofs.LookupTotal.
 
 (* ---- data half ---- *)
@@ -90,6 +91,54 @@ Theorem C17_model_lookup_minimal_among_all_completions : forall d tm excl c,
   forall t c2, agrees tm t -> get_by_raw_truth_table d t = DbOk (Some c2) ->
     (gates_number c excl <= gates_number c2 excl)%nat.
 Proof. exact model_lookup_minimal_among_completions. Qed.
+
+(* ---- the regenerated algorithms (translator T16) ----
+   Generated/NormAlgGen.v is produced on every check from the STATEMENTS of normalization.py (class
+   NormalizationInfo, _negate_gate) and of _truth_table_to_label in db.py, Generated/CodecAlgGen.v from the codec
+   (see C16_codec_regenerated); every generated function equals the hand model the lookup theorems above are
+   about.  gen_of_norm ni (Proofs/NormAlgGen.v) is the Python object (Optional lists of Python ints) that
+   NormalizationInfo(t) builds when the hand model builds ni; to_db maps a generated result into the model's
+   dbres (CircuitIsNotCompatibleWithNormalizationParameters is TruthTableBadShapeError in the generated code,
+   NotCompatibleWithNormalization in the model).  The class CircuitsDatabase itself (file handling, the lookup
+   loops) is hand-modelled only. *)
+Theorem C17_lookup_regenerated :
+  (* normalization.py: the three steps of NormalizationInfo(t) write one attribute each ... *)
+  (forall o t, gen_NormalizationInfo__normalize_outputs o t
+     = do r <- normalize_outputs t; Ok (snd r, set_NormalizationInfo_negations o (Some (fst r)))) /\
+  (forall o t, gen_NormalizationInfo__sort_outputs o t
+     = Ok (snd (sort_outputs t),
+           set_NormalizationInfo_permutation o (Some (map Z.of_nat (fst (sort_outputs t)))))) /\
+  (forall o t, gen_NormalizationInfo__delete_duplicate_outputs o t
+     = do r <- delete_duplicate_outputs t;
+       Ok (fst r, set_NormalizationInfo_mapping o (Some (map Z.of_nat (snd r))))) /\
+  (* ... and the constructor (with _normalize) builds, for every table, the object of the hand model's result *)
+  (forall t, gen_NormalizationInfo___init__ t = do ni <- normalize t; Ok (gen_of_norm ni)) /\
+  (* denormalize and its helpers, on every object the constructor builds and every circuit *)
+  (forall c g, gen__negate_gate c g = do r <- negate_gate c g; Ok (snd r, fst r)) /\
+  (forall ni c, gen_NormalizationInfo__undo_outputs_deletion (gen_of_norm ni) c = undo_outputs_deletion ni c) /\
+  (forall ni c, to_db (gen_NormalizationInfo__unsort_outputs (gen_of_norm ni) c) = unsort_outputs ni c) /\
+  (forall ni c, to_db (gen_NormalizationInfo__denormalize_outputs (gen_of_norm ni) c) = denormalize_outputs ni c) /\
+  (forall ni c, to_db (gen_NormalizationInfo_denormalize (gen_of_norm ni) c) = denormalize ni c) /\
+  (* db.py: _truth_table_to_label *)
+  (forall t, gen__truth_table_to_label t = Ok (truth_table_to_label t)) /\
+  (* what get_by_label / open / save / add_circuit / get_by_raw_truth_table_model call in the codec *)
+  (forall bs, gen_decode_circuit bs = decode_circuit bs) /\
+  (forall s, gen_read_binary_dict s = do d <- read_binary_dict s; Ok (d, [])) /\
+  (forall d s, gen_write_binary_dict d s = do b <- write_binary_dict d; Ok (s ++ b)) /\
+  (forall c, gen_encode_circuit (length (non_input_labels c)) c = encode_circuit c) /\
+  (forall c excl, gen_Circuit_gates_number c excl = Ok (Z.of_nat (gates_number c excl))).
+Proof. exact lookup_regenerated_holds. Qed.
+
+(* the regenerated functions do perform the lookup of the non-vacuity example below: NormalizationInfo of the
+   NAND table, the label of its normalised table, the decoded entry, denormalize *)
+Example C17_example_regenerated_lookup :
+  (do o <- gen_NormalizationInfo___init__ [[true; true; true; false]];
+   do l <- gen__truth_table_to_label (NormalizationInfo_truth_table o);
+   do c <- gen_decode_circuit (map ascii_of_N [2; 86; 144]%N);
+   do c' <- gen_NormalizationInfo_denormalize o c;
+   Ok (l, outputs c'))
+  = Ok ("0001", ["not_gate_2"]).
+Proof. vm_compute; reflexivity. Qed.
 
 (* ---- non-vacuity ---- *)
 (* the AIG entry stored under "0001" (AND of the two inputs) is accepted, and the one-entry
